@@ -2435,6 +2435,10 @@ def run_c04(ctx: fw.Ctx) -> None:
     for i, tmpl in enumerate(REQ_POSITIONS):
         line = tmpl.replace("{E}", "require('lib.m')").replace("{R2}", "require 'lib.m'").replace("{R}", "require('lib.m')").replace("{k}", str(i))
         sys_trees.append({"files": {"main.lua": f"start()\n{line}\ntail()\n", "lib/m.lua": "in_m()\n"}, "dirs": [], "main": "main.lua", "search": []})
+        if "{R}" in tmpl:
+            # what the required file begins with matters for the text around the splice: a bracket, a comment and a bracket, a long comment
+            for mod in ("('s'):m()\nin_m()\n", "-- hello\n('s'):m()\n", "--[[ long\ncomment ]]\n(f or g)()\nin_m()\n", "-- only a comment\n", "", ";\n(f)()\n"):
+                sys_trees.append({"files": {"main.lua": f"start()\n{line}\ntail()\n", "lib/m.lua": mod}, "dirs": [], "main": "main.lua", "search": []})
         sys_trees.append({"files": {"main.lua": "start()\nlocal a = require('lib.a')\ntail()\n", "lib/a.lua": f"in_a()\n{line.replace('lib.m', 'm')}\ntail_a()\n",
                                     "lib/m.lua": "in_m()\n"}, "dirs": [], "main": "main.lua", "search": []})
     eval_resolve(ctx, st_sys, sys_trees, [None, "min"])
@@ -3175,16 +3179,16 @@ LEAN_OBLIGATIONS.update({
                             "positions are (line, column) pairs of the model tokens, tied to the text by C16_positions and to parser.py by T2:parse"],
     ),
     "C09": dict(
-        modules=["Tumfl.Props.C09", "Tumfl.Props.C19", "Tumfl.Props.C05"],
+        modules=["Tumfl.Props.C09", "Tumfl.Props.C09Pos", "Tumfl.Props.C19", "Tumfl.Props.C05"],
         obligations=["Tumfl.Props.C09_lexer_total", "Tumfl.Props.C09_lexer_terminates", "Tumfl.Props.C09_lexer_progress", "Tumfl.Props.C09_parser_errors",
                      "Tumfl.Props.C09_no_assertion", "Tumfl.Props.C09_parse_total", "Tumfl.Props.C09_parser_terminates", "Tumfl.Props.C09_fuel_irrelevant",
-                     "Tumfl.Props.C09_parse_total_final",
+                     "Tumfl.Props.C09_parse_total_final", "Tumfl.Props.C09_error_positions", "Tumfl.Props.C09_lexer_error_position",
                      "Tumfl.Props.C09_no_index_error", "Tumfl.Props.C05_rejects_cleanly", "Tumfl.Props.C05_terminates"],
         extractors=["Ladder", "LexTables"],
         tie_names=["T1:Ladder", "T1:LexTables", "T2:parse (error kind, token, hints on every malformed input)"],
         partial_hypotheses=["proved for any text: lexer and parser terminate (the model's recursion fuel is never exhausted: potential argument over all 21 parse functions) "
-                            "and parse returns a tree or raises LexerError/ParserError - never IndexError, never AssertionError; error positions inside the text: C16_positions for "
-                            "tokens, oracle for LexerError positions; Python's recursion limit (nesting beyond the quantifier's bound) is outside the model"],
+                            "and parse returns a tree or raises LexerError/ParserError - never IndexError, never AssertionError - whose position lies inside the text "
+                            "(C09_error_positions); Python's recursion limit (nesting beyond the quantifier's bound) is outside the model"],
 
     ),
     "C13": dict(
@@ -3222,20 +3226,24 @@ LEAN_OBLIGATIONS.update({
     ),
     "C04": dict(
         modules=["Tumfl.Props.C04"],
-        obligations=["Tumfl.Props.C04_lookup", "Tumfl.Props.C04_lookup_none", "Tumfl.Props.C04_no_require", "Tumfl.Props.C12_untouched", "Tumfl.Props.C12_errors"],
+        obligations=["Tumfl.Props.C04_lookup", "Tumfl.Props.C04_lookup_none", "Tumfl.Props.C04_no_require", "Tumfl.Props.C12_untouched", "Tumfl.Props.C12_errors",
+                     "Tumfl.Props.C04_terminates", "Tumfl.Props.C04_outcome_unique", "Tumfl.Props.C04_formats_valid", "Tumfl.Props.C04_expr_cycle_diverges"],
         extractors=["Ladder", "LexTables", "FmtTables", "Brackets"],
         tie_names=["T2:resolve (model resolver on the abstract file system vs the real resolver on a real directory tree: whole resulting AST or the error)",
                    "T2:format (formatting of the result goes through the same model)"],
-        partial_hypotheses=["faithfulness (the spliced statements are exactly the file's, everything else unchanged) is T2 + the inlining oracle, not a theorem",
+        partial_hypotheses=["proved on the model: lookup order, no require remains, termination for every tree whose expression-level require edges are acyclic (explicit depth bound), "
+                            "and that the emitted pieces of the result read as a valid chunk with the spliced tree (C04_formats_valid; K4 and empty spliced files under KEEP_SEMICOLON "
+                            "excluded); faithfulness of the splice itself (the spliced statements are exactly the file's) is by construction of the model, tied by T2:resolve + the inlining oracle",
                             "K4 (statement-level require of a file with a top-level return) is a known finding"],
     ),
     "C12": dict(
         modules=["Tumfl.Props.C04"],
         obligations=["Tumfl.Props.C12_wrong_args_stmt", "Tumfl.Props.C12_wrong_args_expr", "Tumfl.Props.C12_missing_stmt", "Tumfl.Props.C12_missing_expr",
-                     "Tumfl.Props.C12_untouched", "Tumfl.Props.C12_errors", "Tumfl.Props.C04_lookup_none"],
+                     "Tumfl.Props.C12_untouched", "Tumfl.Props.C12_errors", "Tumfl.Props.C04_lookup_none", "Tumfl.Props.C12_stmt_cycles_terminate",
+                     "Tumfl.Props.C12_cycle_example", "Tumfl.Props.C04_terminates"],
         extractors=["Ladder", "LexTables"],
         tie_names=["T2:resolve (faulty trees: exception kind and token of the offending call)"],
-        partial_hypotheses=["`the first such call in visit order raises` and termination of statement-level cycles: T2 and oracle streams; is_file on a directory: the abstract "
+        partial_hypotheses=["statement-level cycles terminate: proved (C12_stmt_cycles_terminate); `the first such call in visit order raises`: T2 and oracle streams; is_file on a directory: the abstract "
                             "file system has files and directories as disjoint sets, tied by T2 on real trees with directory traps"],
     ),
     "C20": dict(
@@ -3249,14 +3257,17 @@ LEAN_OBLIGATIONS.update({
 LAYOUT_OBL = ["Tumfl.Props.C08_remove_separators", "Tumfl.Props.C08_add_spacing", "Tumfl.Props.C08_remove_orphaned", "Tumfl.Props.C08_resolve_tokens",
               "Tumfl.Props.C08_join", "Tumfl.Props.C08_indent_brackets", "Tumfl.Props.C08_string_wrap", "Tumfl.Props.C08_wrap_progress", "Tumfl.Props.C02_boundary",
               "Tumfl.Props.C08_comment_wf", "Tumfl.Props.C08_comment_text"]
-PIECE_OBL = ["Tumfl.Props.Same_program", "Tumfl.Props.Same_tokens", "Tumfl.Props.Same_normS_eq", "Tumfl.Props.Same_normS_strength", "Tumfl.Props.Parse_printable", "Tumfl.Props.C10_parse_sound", "Tumfl.Props.C03_parse_complete", "Tumfl.Props.Print_sim", "Tumfl.Props.Print_sim_parseToks", "Tumfl.Props.Print_readings", "Tumfl.Props.C11_roundtrip", "Tumfl.Props.C11_emit_is_par", "Tumfl.Props.C11_emit_roundtrip", "Tumfl.Props.C11_minified", "Tumfl.Inst.brackets_sound_all",
+PIECE_OBL = ["Tumfl.Props.C02_same_program", "Tumfl.Props.C02_same_program_nocomments", "Tumfl.Props.Format_lex", "Tumfl.Props.Format_lex_exact", "Tumfl.Props.Format_comments",
+             "Tumfl.Props.Parse_numsCanon", "Tumfl.Props.Format_cex_semicolon", "Tumfl.Props.Format_cex_trailing_comma", "Tumfl.Props.Same_program", "Tumfl.Props.Same_tokens", "Tumfl.Props.Same_normS_eq", "Tumfl.Props.Same_normS_strength", "Tumfl.Props.Parse_printable", "Tumfl.Props.C10_parse_sound", "Tumfl.Props.C03_parse_complete", "Tumfl.Props.Print_sim", "Tumfl.Props.Print_sim_parseToks", "Tumfl.Props.Print_readings", "Tumfl.Props.C11_roundtrip", "Tumfl.Props.C11_emit_is_par", "Tumfl.Props.C11_emit_roundtrip", "Tumfl.Props.C11_minified", "Tumfl.Inst.brackets_sound_all",
              "Tumfl.Props.C06_quoted", "Tumfl.Props.C06_long", "Tumfl.Props.C06_forms", "Tumfl.Props.C06_wrapped", "Tumfl.Props.C07_partial", "Tumfl.Props.C13_emit_on"]
-FORMAT_MODULES = ["Tumfl.Props.Same", "Tumfl.Props.Parse", "Tumfl.Props.Print", "Tumfl.Props.C08", "Tumfl.Props.C11", "Tumfl.Props.C06", "Tumfl.Props.C07", "Tumfl.Props.C13"]
-FORMAT_PARTIAL = ["proved: every token reading of the emitted pieces (each statement/block separator independently a `;` or nothing) is accepted by the reference parser with the "
-                  "same tree modulo parentheses and empty statements, for every style and printable tree (Print_sim); the source is parsed to a tree related to the reference "
-                  "tree (parser simulation, C03/C10); each layout pass keeps the pieces, literals and their `\\z` wrapping read back, comments are well-formed, adjacent pieces "
-                  "do not fuse when sep_required says so, a well-formed layout text lexes to its tokens (unlex).  NOT yet composed: that the final text of format IS such a "
-                  "well-formed layout of the emitted pieces (stage by stage tied to the real code by T2:format and T2:units, and checked by the reference-parser oracle)",
+FORMAT_MODULES = ["Tumfl.Props.Format", "Tumfl.Props.Same", "Tumfl.Props.Parse", "Tumfl.Props.Print", "Tumfl.Props.C08", "Tumfl.Props.C11", "Tumfl.Props.C06", "Tumfl.Props.C07", "Tumfl.Props.C13"]
+FORMAT_PARTIAL = ["proved end to end on the model for styles with line width 0 that minify or separate statements by line breaks (MinifiedStyle is one): parse then format yields a "
+                  "valid chunk whose reference tree equals the source's after normS - parentheses erased, empty statements dropped, numerals canonical (C02_same_program; hypotheses: "
+                  "no CR in the source, documented separators, comments off or without a blank directly before an inner line break). For the remaining styles (line width > 0, or "
+                  "separator `;` without minifying) Format_lex proves the text lexes to a reading of the emitted pieces plus trailing commas before `}` and one final `;`; that such "
+                  "readings parse to the same tree (the printer simulation extended by the guarded trailing comma, TCG) is the one link still open for them - covered by T2:format, "
+                  "T2:units and the reference-parser oracle. The emitter in these theorems is the one before fix 32; the repaired one (emitI, the one T2 compares) coincides with it "
+                  "on trees without nested chunks (Props/EmitI.lean when present)",
                   "K1, K2, K3 are known findings"]
 for _p, _extra in (("C01", []), ("C02", []), ("C08", []), ("C15", [])):
     LEAN_OBLIGATIONS[_p] = dict(
